@@ -540,19 +540,24 @@ macro_rules! quaternion_complete_mod {
             /// ```
             // From GLM's source code.
             pub fn slerp_unclamped(from: Self, mut to: Self, factor: T) -> Self {
-                let mut cos_theta = from.dot(to);
+                let cos_theta = from.dot(to);
                 // If cosTheta < 0, the interpolation will take the long way around the sphere.
                 // To fix this, one quat must be negated.
                 if cos_theta < T::zero() {
                     to = -to;
-                    cos_theta = -cos_theta;
                 }
 
-                // Perform a linear interpolation when cosTheta is close to 1 to avoid side effect of sin(angle) becoming a zero denominator
-                if cos_theta > T::one() - T::epsilon() {
+                // The angle is taken from the chord, not from acos(cosTheta): cosTheta carries a rounding error of
+                // about epsilon, which acos() turns into an angle error of epsilon / angle. The weights below then
+                // stop matching the actual angle between the operands, and the result drifts off the unit sphere
+                // like epsilon * factor^2 when extrapolating.
+                let two = T::one() + T::one();
+                let angle = two * (from - to).magnitude().atan2((from + to).magnitude());
+
+                // Perform a linear interpolation when the angle is close to 0 (i.e. cosTheta > 1 - epsilon) to avoid side effect of sin(angle) becoming a zero denominator
+                if angle * angle < two * T::epsilon() {
                     return Self::lerp_unclamped(from, to, factor);
                 }
-                let angle = cos_theta.acos();
                 (from * ((T::one() - factor) * angle).sin() + to * (factor * angle).sin()) / angle.sin()
             }
             /// Perform spherical linear interpolation, constraining `factor` to
